@@ -36,6 +36,28 @@ def outM (m n : Nat) (M : NMat CF) : String :=
 
 def handle (args : List String) : String :=
   match args with
+  | ["abktoab", d, m] => Id.run do
+      -- ABk2localHermitian.to_AB on an integer parameter matrix: exact Gaussian integers
+      let some d := d.toNat? | return "bad-op"
+      let some m := parseIntList? m | return "bad-op"
+      if d = 0 || m.length ≠ d * d then return "bad-op"
+      let mA := m.toArray
+      let H := ABk.toAB (R := GInt) GInt.I (fun r c => GInt.ofInt (mA.getD (r * d + c) 0))
+      return gintListStr ((List.range d).flatMap fun r => (List.range d).map fun c => H r c)
+  | ["abk2sum", dimA, dimB, kext, m] => Id.run do
+      -- ABk2localHermitian.forward WITHOUT its tables: sum over the B copies of the embedded H_AB (exact Gaussian integers)
+      let some dimA := dimA.toNat? | return "bad-op"
+      let some dimB := dimB.toNat? | return "bad-op"
+      let some kext := kext.toNat? | return "bad-op"
+      let some m := parseIntList? m | return "bad-op"
+      let d := dimA * dimB
+      if dimA = 0 || dimB = 0 then return "bad-op"
+      if kext = 0 then return "error:assert"
+      if m.length ≠ d * d then return "bad-op"
+      let mA := m.toArray
+      let n := dimA * dimB ^ kext
+      let H := ABk.sumEmbed (R := GInt) GInt.I dimB kext (fun r c => GInt.ofInt (mA.getD (r * d + c) 0))
+      return gintListStr ((List.range n).flatMap fun r => (List.range n).map fun c => H r c)
   | ["softplus", t] => Id.run do
       let some θ := parseFloats? t | return "bad-op"
       return vecR θ.size fun i => softplus (θ.getD i 0)
@@ -159,6 +181,19 @@ def handle (args : List String) : String :=
       if dim < 2 then return "bad-op"
       if θ.size ≠ (if isReal then dim * (dim - 1) / 2 else dim * dim - 1) then return "bad-op"
       return outM dim dim (soExp (K := CF) Num.expm (cfScalars dim) dim isReal f)
+  | ["stso", dim, rank, rc, meth, t] => Id.run do
+      -- Stiefel.forward for method 'so-exp' / 'so-cayley' (Cayley order 2, the default): first `rank` columns of the chart
+      if !isRC rc then return "bad-op"
+      let some dim := dim.toNat? | return "bad-op"
+      let some rank := rank.toNat? | return "bad-op"
+      let some θ := parseFloats? t | return "bad-op"
+      let f : Nat → Float := fun i => θ.getD i 0
+      let isReal := rc = "r"
+      if dim < 2 || rank = 0 || rank > dim || (meth ≠ "exp" && meth ≠ "cayley") then return "bad-op"
+      if θ.size ≠ (if isReal then dim * (dim - 1) / 2 else dim * dim - 1) then return "bad-op"
+      let U := if meth = "exp" then soExp (K := CF) Num.expm (cfScalars dim) dim isReal f
+               else soCayley (K := CF) Num.inv (cfScalars dim) dim 2 isReal f
+      return outM dim rank (soColumns dim rank U)
   | ["sogen", dim, rc, t] => Id.run do
       if !isRC rc then return "bad-op"
       let some dim := dim.toNat? | return "bad-op"
